@@ -1,12 +1,13 @@
 """C11 - Likelihoods are Poisson/multinomial over jointly unmasked entries, optimal theta
 
-Status: bounded run-time contracts only (props/bounded_C11.py) until the proof obligations of DESIGN.md 7 C11 are added.
+Contracts: the obligations listed in tasks() (contracts/py_wiring.py, contracts/py_memo.py, contracts/c_*.py) are generated from the real source on every run and
+discharged by z3 / the ring normaliser; clauses outside their reach are run-time contracts over stated bounded domains (props/bounded_C11.py).
 """
 from vf.helpers import bounded_tasks
 
 META = dict(
     level='other',
-    explanation='Run-time contracts on the real functions over the bounded domain stated per driver (bounded stand-in; nothing proved).',
+    explanation='Wiring / closed-form / memo-key contracts generated from the real source and discharged by z3 and the ring normaliser for the functions within reach (see coverage.obligations); the remaining clauses are run-time contracts over the bounded domain stated per driver (bounded stand-in, never counted as proved).',
     trusted_base=['oracles of props/bounded_C11.py (independent of dadi: exact rationals, mpmath, dense linear algebra, explicit index loops)'],
     rule='cases enumerated or sampled as stated in each driver\'s bound; a case is non-trivial unless the driver marks it degenerate; distinct by its key',
 )
@@ -14,7 +15,7 @@ META = dict(
 
 def tasks(tier):
     from vf.core import Task
-    return [Task('props.wire:run', name='C11/wire.c11_ll_per_bin', fname='c11_ll_per_bin', timeout=300), Task('props.wire:run', name='C11/wire.c11_ll_wiring', fname='c11_ll_wiring', timeout=300), Task('props.wire:run', name='C11/wire.c11_residuals', fname='c11_residuals', timeout=300)] + bounded_tasks('C11', tier)
+    return [Task('props.wire:run', name='C11/wire.c11_ll_per_bin', fname='c11_ll_per_bin', timeout=300), Task('props.wire:run', name='C11/wire.c11_ll_wiring', fname='c11_ll_wiring', timeout=300), Task('props.wire:run', name='C11/wire.c11_residuals', fname='c11_residuals', timeout=300), Task('props.wire:run', name='C11/lemma.optimal_scaling.n2', fname='c11_optimal_scaling_lemma', kwargs=dict(n=2), timeout=300), Task('props.wire:run', name='C11/lemma.optimal_scaling.n3', fname='c11_optimal_scaling_lemma', kwargs=dict(n=3), timeout=300)] + bounded_tasks('C11', tier)
 
 
 MANIFEST_ENTRY = dict(
